@@ -115,7 +115,7 @@ def gen_dataset(rng, prof):
     d.rfp = rfp
     nl = rng.randint(1, prof.get("lmax", 5))
     for l in range(1, nl + 1):
-        mode = 0 if (prof.get("transferable", False) and rng.chance(0.15)) else rng.randint(1, 2)
+        mode = 0 if (prof.get("transferable", False) and rng.chance(prof.get("ptransferable", 0.15))) else rng.randint(1, 2)
         d.lines.append((l, rng.randint(1, 2), mode))
     base = prof.get("base", rng.choice([0, 1, 5, 8, 9, 12, 17, 22, 23, 24, 27, 30])) * 3600 + rng.randint(0, 3599)
     hubs = rng.sample(d.nodes, max(1, n // 3))
@@ -383,6 +383,10 @@ PROFILES = {
     # rewrites: few stops, many looping lines through the same stops
     "rewrites": dict(pos_hops=True, transferable=False, nmin=3, nmax=5, lmax=6, tmax=2, loops=0.55, forbid=0.15, pfp=0.35,
                      grid=60, maxfws=[-1, -1, -1, 600], njourneys=40),
+    # the domain of C03/C08 beyond uniform waiting: positive hops, but lines of mode "transferable" (own minimum waiting 0 s)
+    # next to ordinary ones, request waiting times well above 0, departures close together
+    "mixedwait": dict(pos_hops=True, transferable=True, ptransferable=0.45, nmin=3, nmax=6, lmax=5, tmax=3, loops=0.2, forbid=0.05,
+                      pfp=0.3, minws=[180, 300, 300, 600, 60], maxfws=[-1, -1, -1, -1, 600]),
     # zero-time hops and zero waiting (termination)
     "zero": dict(pos_hops=False, transferable=False, nmin=3, nmax=5, lmax=4, loops=0.4, forbid=0.05, pfp=0.3,
                  grid=300, minws=[0, 0, 300]),
